@@ -1,6 +1,8 @@
 """C28 — grammar matching always terminates (tpl/matcher/match.go, tpl/cl/compile.go).
 
-A  Props/C28.v : C28_match_terminates (productive grammar => Doc.Match needs at most
+A  K-gen: Gen/TplFirst.v (first/mayEmpty rule of every Matcher.First method) regenerated from /repo;
+   C28_first_rules_match_source ties it to the model's first (= the compile-time left-recursion check)
+   Props/C28.v : C28_match_terminates (productive grammar => Doc.Match needs at most
    fuel_bound = 1 + (|toks|+1)(R+1)W steps of recursion depth, any input, any start rule),
    C28_result_stable, and the two refutations of "compiles => terminates"
    (C28_compile_accepts_nullable_rep_refuted, C28_compile_accepts_left_rec_refuted)
@@ -41,9 +43,27 @@ REJECTED = [("doc = a | INT\na = ?INT doc\n", "x"), ("doc = doc | INT\n", "1"), 
 
 
 def run(ctx):
+    ctx.regen(["tokens", "tplcl", "tplfirst"])
     ctx.prove("C28")
     rng = ctx.rng
     cases, cats = [], []
+    # left recursion hidden behind nullable prefixes, the recursion passing through a Choice option: every such grammar
+    # must be rejected at compile time (RecursiveError).  Deterministic family + seeded variants; these pairs are run on
+    # the implementation WHATEVER the model says, so a grammar that newly compiles and recurses forever is a failing input.
+    fam = []
+    for rules in tplm.leftrec_family():
+        g = tplm.grammar_text(rules).encode()
+        for t in tplm.LEFTREC_INPUTS:
+            fam.append((g, t.encode(), "hidden-leftrec"))
+    for _ in range(ctx.n(120, 6000)):
+        tpls = tplm.leftrec_templates(tplm.gen_nullable(rng, 2), tplm.gen_nullable(rng, 2))
+        g = tplm.grammar_text(rng.choice(tpls)).encode()
+        for _ in range(2):
+            fam.append((g, rng.choice(tplm.LEFTREC_INPUTS).encode(), "hidden-leftrec-seeded"))
+    for g, t, c in fam:
+        cases.append((g, t))
+        cats.append(c)
+    nfam = len(cases)
     for g, t in REJECTED:
         cases.append((g.encode(), t.encode()))
         cats.append("rejected-at-compile")
@@ -56,15 +76,23 @@ def run(ctx):
                 sent = tplm.mutate_sentence(rng, sent)
             cases.append((gtext, tplm.sentence_text(sent).encode()))
             cats.append("seeded")
-    res = tplm.run_pipeline(ctx, cases, watchdog="5s")
+    res = tplm.run_pipeline(ctx, cases, watchdog="5s", always_run=range(nfam))
     if res is None:
         return
     mlines, mout, rows = res
     flags = ctx.notes.pop("productive_flags")
     idx = [i for i in range(len(cases)) if rows[i] is not None]
-    ctx.diff_lines("match_doc~Compiler.Match(termination)",
+
+    def nonterm(r):     # the model's FUEL corresponds to a hang / stack overflow of the implementation
+        return "FUEL" if (r.startswith("HANG") or r.startswith("CRASH")) else r
+    ctx.diff_lines("match_doc~Compiler.Match(termination, compile verdict)",
                    ["%s | %s" % (cases[i][0].decode("utf-8", "replace").replace("\n", " ; "), cases[i][1].decode("utf-8", "replace")) for i in idx],
-                   "\n".join(rows[i][0] for i in idx), "\n".join(mout[i] for i in idx))
+                   "\n".join(nonterm(rows[i][0]) for i in idx), "\n".join(mout[i] for i in idx))
+    fam_verdicts = {}
+    for i in range(nfam):
+        if rows[i] is not None:
+            k = rows[i][0].split(" ")[0]
+            fam_verdicts[k] = fam_verdicts.get(k, 0) + 1
     stats = {"productive(P)": 0, "no-certificate-but-terminates(N)": 0, "model-FUEL-not-run": 0, "compile-or-parse-error": 0}
     for i in range(len(cases)):
         if rows[i] is None:
@@ -105,13 +133,18 @@ def run(ctx):
     ctx.cover(evaluations=len(idx) + len(WITNESSES), distinct_nontrivial=len(set(cases[i] for i in idx if flags[i] in ("P", "N"))),
               samples=[{"grammar": cases[i][0].decode("utf-8", "replace"), "input": cases[i][1].decode("utf-8", "replace"),
                         "impl": (rows[i] or ["(not run)"])[0][:120], "certificate": flags[i]} for i in (0, 5, 100, len(cases) - 1)] + wit[:2],
-              rule="seeded grammars of 1-4 rules (2/3 with arbitrary rule references incl. self/mutual recursion and \"\" leaves, "
+              rule="hidden-left-recursion family (%d pairs, run on the implementation whatever the model says): 20 nullable constructs "
+                   "(?R, *R, \"\", SPACE, choices with the nullable alternative first/middle/last, nested choices, nullable sequences) x 8 "
+                   "templates (recursive alternative first/middle/last, reached from another rule, indirect through a choice / a "
+                   "sequence, choice-in-sequence-in-choice, two nullable items) x 7 inputs (x, empty, wrong token, matching ones) + "
+                   "seeded nullable constructs; the compile verdict (RecursiveError vs compiled) is part of the compared result. "
+                   "seeded grammars of 1-4 rules (2/3 with arbitrary rule references incl. self/mutual recursion and \"\" leaves, "
                    "depth<=4) x 3 inputs (derived, half of them mutated); each pair on which the model terminates is run on the "
                    "implementation under a 5s watchdog. EXCLUDED from the seeded run, never silently: pairs on which the model "
                    "exceeds its fuel bound (no productivity certificate: nullable repetition body or left recursion not crossing a "
                    "Choice) — that class is represented by %d deterministic witnesses run once each in a child process "
                    "(700ms watchdog, 4GB) and listed as known findings; %d compile-time rejections are checked to stay rejections. "
-                   "non-trivial = distinct compiled pair." % (len(WITNESSES), len(REJECTED)),
-              termination_classes=stats, witnesses=wit)
+                   "non-trivial = distinct compiled pair." % (nfam, len(WITNESSES), len(REJECTED)),
+              termination_classes=stats, witnesses=wit, hidden_leftrec_family={"pairs": nfam, "impl_outcomes": fam_verdicts})
     ctx.trust("modelled, not verified: tpl/matcher/match.go (hand-written Gallina model tied by differential run)")
     ctx.assume("no RetProcs", "Choice matchers have at least one option")
